@@ -8,7 +8,7 @@ from vlib import core, prog, physics, h5oracle
 
 ASSUME = [
     "two cases in 16 are 'scale' cases: a mesh of 513-1030 cells, and a first leg with 513 stored states continued from record 257-511 (or counted from the end)",
-    "split points are whole numbers of steps (dyadic T1, T2 with steps*T exact) and, for RenormalizeCharge=n>0, the start record lies on a multiple of n so that the renormalisation schedules of both runs align; a step-count mismatch between the legs is a harness error, never a violation",
+    "split points are whole numbers of steps (dyadic T1, T2 with steps*T exact) and, for RenormalizeCharge=n>0, the start record lies on a multiple of n so that the renormalisation schedules of both runs align; a step-count mismatch of the second leg or of the uninterrupted run is a harness error, never a violation; a first leg whose file does not end with the state it reached is one",
     "'within rounding': bit-exact where no renormalisation intervenes (RenormalizeCharge -1), 1e-5*max otherwise (RenormalizeCharge 0 renormalises once at every start-up, n>0 periodically)",
     "all three runs of a case share one warmed FFT wisdom directory",
     "refusals: the process must end by itself (watchdog = violation), print a message, must not log 'Starting the simulation' and must not create the requested results file",
@@ -34,6 +34,15 @@ def gen_case(seed, i, tier):
         o["InterpolationPoints"] = r.choice([2, 3])
     if r.chance(0.3):
         o["InitialDistZoom"] = r.choice([0.8, 1.3])
+    if i % 8 == 6:
+        # a grid that cuts a tail of the bunch (small phase space, or shifted by a quarter of its size): whatever the start-up code derives
+        # from a built-in distribution on such a grid must not leak into a run that starts from a stored one
+        if r.chance(0.5):
+            o["PhaseSpaceSize"] = r.choice([6.0, 7.0])
+        else:
+            o["PhaseSpaceShiftX"] = round(r.choice([-1, 1]) * r.uniform(0.2, 0.27) * o["GridSize"], 1)
+            o["PhaseSpaceShiftY"] = round(r.choice([-1, 1]) * r.uniform(0.0, 0.2) * o["GridSize"], 1)
+        o["_cut"] = True
     # half of the cases leave the linear optics: second / third order momentum compaction, sinusoidal RF (the parts of the dynamics that
     # depend on the absolute energy and length scales of the phase space, which a continued run takes from the start file's context)
     if i % 4 == 1:
@@ -103,6 +112,7 @@ def run_case(args):
     leg1name = "out.hdf5" if i % 3 == 1 else "out.h5"
     out["hdf5_ending"] = leg1name.endswith(".hdf5")
     out["scale"] = o.get("_scale")
+    out["cut"] = bool(o.get("_cut"))
 
     go("warm", dict(outstep=0), 0.01)
     full, rf = go("full", dict(outstep=1, SavePhaseSpace=1), T1 + T2)
@@ -125,6 +135,11 @@ def run_case(args):
     ps2 = np.rint(leg2["/PhaseSpace/axis0"].astype(float) * steps).astype(int)
     psf = {int(s): j for j, s in enumerate(np.rint(full["/PhaseSpace/axis0"].astype(float) * steps).astype(int))}
     n1, n2, nf = int(ps1[-1]), int(ps2[-1]), max(psf)
+    if n1 != round(steps * T1):
+        # the first leg's file does not end with the state the first leg reached: "the last stored record" is then an older state
+        out["viol"].append(("C11:first_leg_end_state_not_stored", "the results file of the first leg does not end with the state reached at the end of that leg, so continuing from its last record cannot equal the uninterrupted run",
+                            dict(base=base, T1=T1, first_leg_last_stored_step=n1, first_leg_steps=int(round(steps * T1)), cmd_leg1=" ".join(r1["argv"]))))
+        return out
     if n1 != round(steps * T1) or n2 != round(steps * T2) or nf != round(steps * (T1 + T2)):
         out["incon"].append("case %d: step counts do not add up (%d,%d,%d)" % (i, n1, n2, nf))
         return out
@@ -238,6 +253,8 @@ def run(ctx):
             ctx.ev("continuations_at_scale." + res["scale"])
         if "worst" in res and any(k in res["base"] for k in ("alpha1", "alpha2", "LinearRF")):
             ctx.ev("continuations_with_nonlinear_optics")
+        if res.get("cut") and "worst" in res:
+            ctx.ev("continuations_on_grids_that_cut_a_tail")
         if res.get("exact"):
             ctx.ev("bit_exact_continuations")
         elif "worst" in res:
@@ -249,4 +266,4 @@ def run(ctx):
         ctx.sample(dict(base=res["base"], states_compared=res["compared"]))
     refusals(ctx, sdir)
     ctx.min_events = {"states_compared": 20 * n, "refusals_tried": 10, "bit_exact_continuations": n // 4,
-                      "continuations_with_nonlinear_optics": n // 4, "continuations_at_scale.grid": 1, "continuations_at_scale.records": 1}
+                      "continuations_with_nonlinear_optics": n // 4, "continuations_on_grids_that_cut_a_tail": max(1, n // 12), "continuations_at_scale.grid": 1, "continuations_at_scale.records": 1}
